@@ -406,7 +406,7 @@ class Ctx:
         return sorted(seen)
 
     # -- finishing
-    def finish(self):
+    def finish(self, write_evidence=True):
         wall = time.time() - self.t0
         for l in self.known_lines:
             print(l)
@@ -433,9 +433,10 @@ class Ctx:
             'coverage': cov, 'assumptions': self.assumptions, 'wall_s': round(wall, 2),
             'violations': len(self.violations),
         }
-        os.makedirs(os.path.join(VERIF, 'evidence'), exist_ok=True)
-        with open(os.path.join(VERIF, 'evidence', f'{self.pid}.json'), 'w') as f:
-            json.dump(ev, f, indent=1, default=str)
+        if write_evidence:           # a replay of one recorded input is not a check: it leaves the evidence file alone
+            os.makedirs(os.path.join(VERIF, 'evidence'), exist_ok=True)
+            with open(os.path.join(VERIF, 'evidence', f'{self.pid}.json'), 'w') as f:
+                json.dump(ev, f, indent=1, default=str)
         shutil.rmtree(self.workdir, ignore_errors=True)
         for path, tail in self.violations:
             print(f'VIOLATION property={self.pid} replay={path}{tail}')
